@@ -144,5 +144,29 @@ pub fn enumerate() -> Vec<String> {
         v.push(format!("COMMIT{t}"));
         v.push(format!("ROLLBACK{t}"));
     }
+    // nested data types in every position that carries a type (the limit ladder of C12 and the depth
+    // guards of C03 need texts whose nesting sits inside a TYPE, not inside an expression)
+    let types = ["ARRAY<ARRAY<INT>>", "ARRAY<ARRAY<ARRAY<ARRAY<INT>>>>", "STRUCT<a ARRAY<STRUCT<b INT>>>", "INT[][][]", "Nested(a Array(Nullable(Int32)))", "Map(String, Array(Tuple(a Int8, b String)))", "STRUCT(a STRUCT(b STRUCT(c INT)))", "Nullable(LowCardinality(String))", "my_type", "my_type(1, 'x')"];
+    for t in types {
+        v.push(format!("SELECT CAST(x AS {t})"));
+        v.push(format!("SELECT x::{t}"));
+        v.push(format!("CREATE TABLE t (a {t}, b INT)"));
+        v.push(format!("ALTER TABLE t ADD COLUMN c {t}"));
+        v.push(format!("CREATE FUNCTION f(a {t}, b INT) RETURNS {t} AS 'select 1' LANGUAGE sql"));
+        v.push(format!("CREATE FUNCTION f({t}) RETURNS INT AS 'select 1'"));
+        v.push(format!("DROP FUNCTION f(a {t}), g({t})"));
+        v.push(format!("DROP PROCEDURE p(a {t})"));
+        v.push(format!("DECLARE x {t}"));
+        v.push(format!("CREATE TYPE c AS (f1 {t}, f2 INT)"));
+        v.push(format!("PREPARE p ({t}) AS SELECT 1"));
+        v.push(format!("CREATE PROCEDURE p (@a {t}) AS BEGIN SELECT 1 END"));
+    }
+    // COPY ... FROM STDIN payloads: end marker alone on a line, in the middle of a line, after data
+    // on the same line, values with backslashes, empty payload
+    for body in ["1\tx\n\\.", "C:\\.cache\t2\n\\.", "x\\.\n\\.", "a\tb\n1\t\\N\n\\.", "\\.", "a b\n \\.\n\\."] {
+        let body = body.replace("\\t", "\t").replace("\\n", "\n").replace("\\\\", "\\");
+        v.push(format!("COPY t (a, b) FROM STDIN;\n{body}"));
+        v.push(format!("COPY t FROM STDIN WITH (FORMAT csv);\n{body}\n"));
+    }
     v
 }
